@@ -26,6 +26,33 @@ claim("C14", "model_checking", "SEQ", "destroy-notifier log checked on every tra
       "of objects handed to the notifiers is compared with the reference; double destroy and use of a destroyed key by the comparator are detected; "
       "modes: both notifiers, key-only, value-only, none.", TREE_NOTE, "5 C12-C14")
 
+SCHED_NOTE = ("trusted: gcc's tsan instrumentation pass (only as a source of callbacks), our runtime engine/mcrt_* (scheduler, POSIX threads model, vector-clock monitor), glibc for the real "
+              "pthread contracts. Bounds: 2-4 threads, 1-2 operations each, preemption bound 2 (quick) / 3-4 (thorough), <= 1 spurious wake-up; state-hash pruning on causal-history "
+              "fingerprints (DESIGN.md 3.3). Sequentially consistent scheduler; weak-memory reorderings beyond what the happens-before monitor judges are not explored.")
+claim("C01", "model_checking", "SCHED", "preemption-bounded exhaustive interleaving exploration of the real lock code under a controlled scheduler + happens-before monitor",
+      "All interleavings (within the preemption bound) of 2-3 threads doing lock/trylock/unlock on the real PMutex and PSpinLock, for each of the c11, sync and sim models, with a "
+      "shadow holder count, a happens-before race monitor on the protected data (visibility), deadlock/livelock detection and a never-blocks check for trylock.", SCHED_NOTE, "5 C01")
+claim("C02", "model_checking", "SCHED", "preemption-bounded exhaustive interleaving exploration incl. spurious wake-ups and signal-target choice, posix and general rwlock models",
+      "All interleavings within the bounds of reader/writer lock, trylock and unlock scripts on the real PRWLock; the portable 'general' model (never built on Linux) is compiled in and "
+      "explored over modelled mutex/condvars, including every spurious wake-up position; exclusion invariant, shared readers (existential), no lost wake-up (every thread finishes).", SCHED_NOTE, "5 C02")
+claim("C03", "model_checking", "SCHED", "preemption-bounded exhaustive interleaving exploration of producer/consumer protocols over the POSIX condvar model with contract checks",
+      "The wrappers are explored driving a POSIX condition-variable model that checks its own contract (waiter holds an initialised mutex); bounded-buffer, gate and token protocols must "
+      "complete in every schedule, with every choice of the woken waiter and with spurious wake-ups.", SCHED_NOTE, "5 C03")
+claim("C04", "model_checking", "SEQ+SCHED", "operand-alphabet enumeration + exhaustive interleavings with brute-force linearizability check, three atomic models",
+      "Every operation on every boundary operand combination against C word arithmetic; every interleaving (within the bound) of 2-3 threads x 1-2 atomic ops on one word checked against "
+      "all sequential orders; message passing under the happens-before monitor; full-barrier accounting for set/get.", SCHED_NOTE, "5 C04")
+claim("C05", "model_checking", "SCHED", "preemption-bounded exhaustive interleaving exploration with tracking allocator, freed-memory poisoning and happens-before monitor",
+      "Creator scripts over ref/unref/join x joinable/detached x thread bodies, exit codes, TLS set/replace/get with racing first use, foreign threads: every interleaving with thread start, "
+      "exit and exit-time TLS destructors; the handle must be freed exactly once, after the last reference, never touched afterwards.", SCHED_NOTE, "5 C05")
+claim("C08", "model_checking", "SEQ", "explicit-state BFS to closure over the ring positions of the real PShmBuffer vs a byte-deque reference",
+      "For every capacity 1..6 (thorough ..9,12) the complete reachable (read_pos, write_pos) graph is explored with every length 0..S+1 through two handles (second opened with equal, larger "
+      "and smaller size); return values, FIFO bytes and space accounting are compared with a reference deque after every operation. Concurrent part: see level_note.",
+      "trusted: the kernel's POSIX shm/semaphores (real /dev/shm), gcc/ASan. The concurrent clause (atomicity of simultaneous reads/writes) is not yet covered by this check (IPC wraps for the "
+      "scheduler are in progress); known finding: handle opened with a smaller size (known_findings.txt).", "5 C08")
+claim("C15", "model_checking", "SEQ", "explicit-state BFS to closure over bucket-chain states of the real PHashTable and all PList contents up to a length, under UBSan/ASan",
+      "Chain states over a 13-key universe built to collide and to hit the integer-conversion edges, <= 3 (quick) / 4 live keys x 3 values; every insert/remove/lookup/keys/values/"
+      "lookup_by_value in every state vs an assoc array; every list content up to length 5 (8) x every op vs an array; UB is decided by the sanitizers.", "trusted: gcc UBSan/ASan; white-box chain dump by #including phashtable.c", "5 C15")
+
 PENDING_REASON = "engine for this property is not finished in the committed tree yet (see DESIGN.md section 9); not served by a weaker technique meanwhile"
 
 
@@ -51,7 +78,9 @@ def main():
                         enable="no source hooks: checks compile /repo/src themselves with -DPLIBSYS_VERIF (unused by the sources) and interpose at link time",
                         baseline_off_cmd="sh engine/baseline_off.sh",
                         source_commits=[], add_only=True),
-             engines=[dict(name="SEQ", path="engine/ + harness/", serves_properties=sorted(p for p in CLAIMED if CLAIMED[p]["engine"] == "SEQ"),
+             engines=[dict(name="SCHED", path="engine/mcrt_*.c + harness/sched_*.c", serves_properties=sorted(p for p in CLAIMED if "SCHED" in CLAIMED[p]["engine"]),
+                           kind_free_text="stateless preemption-bounded DFS over real threads under a controlled scheduler (fork per execution), POSIX threads model, vector-clock happens-before monitor fed by compiler instrumentation, state-hash pruning"),
+                      dict(name="SEQ", path="engine/ + harness/", serves_properties=sorted(p for p in CLAIMED if "SEQ" in CLAIMED[p]["engine"]),
                            kind_free_text="explicit-state / bounded-exhaustive exploration of sequential APIs on the real objects against reference models")],
              checks=checks,
              notes="All checks rebuild the library from /repo's working tree into /verif/build (git-ignored). Violations already repaired in /repo are listed as 'fixed:' in known_findings.txt.",
